@@ -588,9 +588,13 @@ def key_ffi(ctx, rep, rule):
                 tree = _a.parse(exprs[0], mode="eval").body
             except SyntaxError:
                 return False
+            mconsts = ctx.py.module_consts("user") if hasattr(ctx.py, "module_consts") else {}
+
             def ev(n, val):
                 if isinstance(n, _a.Constant) and isinstance(n.value, int):
                     return n.value
+                if isinstance(n, _a.Name) and isinstance(mconsts.get(n.id), int):
+                    return mconsts[n.id]       # a module-level integer constant (`_MASK_SCALE = 64`)
                 if isinstance(n, _a.Attribute) and _a.unparse(n) == "self.value":
                     return val
                 if isinstance(n, _a.BinOp):
